@@ -1,7 +1,12 @@
 #ifndef M4SIM_GEN_H
 #define M4SIM_GEN_H
 #include "ops.h"
-typedef struct { int maxdim; int winprob; /* in 1/16: operand is a window into a larger owner */ } genopt_t;
+typedef struct {
+  int maxdim;
+  int winprob;  /* in 1/16: operand is a window into a larger owner */
+  int deep;     /* the engine runs this case with the smallest cache knobs: steer dimensions into the recursive regimes (> 256, PLE beyond L3/8) */
+  int strat1;   /* 1 + ordinal of this case among the cases of its operation (0: none): enumerable classes (row width, aliasing mode) are cycled instead of drawn */
+} genopt_t;
 extern const char *const gen_all_ops[];
 int gen_nops(void);
 int gen_dim(rng_t *r, int maxd);
